@@ -219,12 +219,14 @@ func caseNames(si *switchInfo) []string {
 // sliceLitElems returns the element values of a slice literal value ([]T{a,b}) in SSA form:
 // Slice(Alloc [n]T) with one store per element. nil if v is not such a literal.
 func sliceLitElems(v ssa.Value) []ssa.Value {
-	sl, ok := v.(*ssa.Slice)
-	if !ok {
-		return nil
+	var al *ssa.Alloc
+	switch x := v.(type) {
+	case *ssa.Slice:
+		al, _ = x.X.(*ssa.Alloc)
+	case *ssa.Alloc: // a local array ([N]T{...}) indexed directly
+		al = x
 	}
-	al, ok := sl.X.(*ssa.Alloc)
-	if !ok {
+	if al == nil {
 		return nil
 	}
 	var out []ssa.Value
